@@ -1,5 +1,5 @@
 """C13 — separate parser/generator instances never influence each other."""
-import itertools, sys, threading
+import itertools, os, sys, threading
 
 from ..pyparse import py_parse_obj, dump, py_gen_text
 from ..findings import still_fails
@@ -66,9 +66,23 @@ def process_state():
             ("stdout", id(sys.stdout)), ("excepthook", id(sys.excepthook)))
 
 
-def run_schedule(texts, schedule):
+def entry_parse(path):
+    """pycparser.parse_file with every default (its own parser), in py_parse_obj's result format"""
+    import pycparser
+    from pycparser.c_parser import ParseError
+    try:
+        return ("OK", pycparser.parse_file(path, use_cpp=False))
+    except ParseError as e:
+        return ("PE", str(e))
+    except RecursionError:
+        return ("FUEL",)
+    except Exception as e:  # noqa
+        return ("CRASH", type(e).__name__, e)
+
+
+def run_schedule(texts, schedule, entry=None):
     before = process_state()
-    r = _run_schedule(texts, schedule)
+    r = _run_schedule(texts, schedule, entry)
     after = process_state()
     if r is not None and after != before:
         diff = [(a[0], a[1], b[1]) for a, b in zip(before, after) if a != b]
@@ -78,12 +92,36 @@ def run_schedule(texts, schedule):
     return r
 
 
-def _run_schedule(texts, schedule):
+def _run_schedule(texts, schedule, entry=None):
     """run len(texts) parsers under the given schedule (list of parser indices; when a parser is
-    finished or the list is exhausted, remaining parsers run round-robin). Returns result keys."""
+    finished or the list is exhausted, remaining parsers run round-robin). Returns result keys.
+    entry: list of file paths - every parse goes through pycparser.parse_file(path) with its defaults
+    instead of through an explicit CParser; the gate then sits in CLexer.token itself."""
     from pycparser.c_parser import CParser
+    from pycparser.c_lexer import CLexer
     gate = Gate()
     Lx = make_sched_lexer(gate)
+    mine = set()
+    orig_token = CLexer.token
+    if entry is not None:
+        def gated_token(self):
+            th = threading.current_thread()
+            if th not in mine:
+                return orig_token(self)
+            gate.wait_turn(th)
+            try:
+                return orig_token(self)
+            finally:
+                gate.step_done()
+        CLexer.token = gated_token
+    try:
+        return _drive(texts, schedule, entry, gate, Lx, mine)
+    finally:
+        CLexer.token = orig_token
+
+
+def _drive(texts, schedule, entry, gate, Lx, mine):
+    from pycparser.c_parser import CParser
     results = [None] * len(texts)
     raw = [None] * len(texts)
     done = [False] * len(texts)
@@ -94,8 +132,11 @@ def _run_schedule(texts, schedule):
             # schedulable step of its own: it may come after another parser is half-way through
             gate.wait_turn(threading.current_thread())
             gate.step_done()
-            p = CParser(lexer=Lx)
-            raw[i] = py_parse_obj(texts[i], "p%d.c" % i, parser=p)
+            if entry is not None:
+                raw[i] = entry_parse(entry[i])
+            else:
+                p = CParser(lexer=Lx)
+                raw[i] = py_parse_obj(texts[i], "p%d.c" % i, parser=p)
             results[i] = result_key(raw[i])
         finally:
             with gate.cv:
@@ -103,6 +144,7 @@ def _run_schedule(texts, schedule):
                 gate.cv.notify_all()
 
     ths = [threading.Thread(target=work, args=(i,), daemon=True) for i in range(len(texts))]
+    mine.update(ths)
     for t in ths:
         t.start()
     sched = list(schedule)
@@ -305,6 +347,32 @@ def run(ctx):
             ctx.violation("overlapping parses left process-wide interpreter state changed %r (random schedule) for %r" % (r[0][1], [t[:40] for t in texts]), {"kind": "schedule", "texts": texts, "schedule": sched})
         elif r != want:
             ctx.violation("interleaved parses differ from solo runs (random schedule) for %r" % [t[:40] for t in texts], {"kind": "schedule", "texts": texts, "schedule": sched})
+    # the same through the public entry point with all its defaults: calls of pycparser.parse_file that
+    # overlap in time must not influence each other either (each creates what it needs)
+    import tempfile, shutil
+    tmpd = tempfile.mkdtemp(prefix="c13_entry_")
+    try:
+        for rnd in range(12 if ctx.quick() else 300):
+            k = rng.choice([2, 2, 3])
+            texts = [rng.choice(SHORT + CLASH) if rnd % 2 == 0 else rng.choice(pool) for _ in range(k)]
+            paths = []
+            for i, t in enumerate(texts):
+                pth = os.path.join(tmpd, "e%d.c" % i)
+                with open(pth, "w") as fh:
+                    fh.write(t)
+                paths.append(pth)
+            want = [result_key(entry_parse(pth)) for pth in paths]
+            sched = [rng.randrange(k) for _ in range(rng.choice([4, 10, 60]))]
+            r = run_schedule(texts, sched, entry=paths)
+            n += 1
+            if r is None:
+                ctx.violation("scheduler dead-lock (parse_file)", {"kind": "entry_schedule", "texts": texts, "schedule": sched})
+            elif isinstance(r[0], tuple) and r[0] and r[0][0] == "PROCESS-STATE-CHANGED":
+                ctx.violation("overlapping parse_file calls left process-wide interpreter state changed %r" % (r[0][1],), {"kind": "entry_schedule", "texts": texts, "schedule": sched})
+            elif r != want:
+                ctx.violation("overlapping calls of pycparser.parse_file (default parser) differ from the same calls made one after the other, schedule %r, for %r" % (sched[:12], [t[:40] for t in texts]), {"kind": "entry_schedule", "texts": texts, "schedule": sched})
+    finally:
+        shutil.rmtree(tmpd, ignore_errors=True)
     # free-running threads
     for _ in range(3 if ctx.quick() else 60):
         texts = [rng.choice(pool) for _ in range(4)]
@@ -317,7 +385,7 @@ def run(ctx):
         n += 1
         for order, why in generator_orders(src):
             ctx.violation("instances of different generator classes influence each other: order %r: %s" % (order, why), {"kind": "genorder", "src": src})
-    ctx.rule("all schedules of length 6 (thorough 9) over two parsers at lexer-call granularity (the start of each parse - parser construction and the resets at the top of parse() - being a step of its own) for pairs of short clashing-name inputs (scheduling lexer injected through lexer=, strict hand-off), random schedules for 2-4 longer programs, and free-running threads (4 parsers + generators, switch interval 1e-6 s); generator / visitor instances of different classes (CGenerator, two subclasses overriding visit_ID / visit_Constant, NodeVisitor subclasses) used in 7 orders in one process vs each alone in its own process; every result compared with the solo run, process-wide interpreter state (recursion limit, switch interval, cwd, environment, locale, warning filters, trace / profile hooks, ...) compared before and after every scheduled run, re-dumped after all parsers have finished (a returned AST must not change afterwards) and checked to share no node object with another parser's result")
+    ctx.rule("all schedules of length 6 (thorough 9) over two parsers at lexer-call granularity (the start of each parse - parser construction and the resets at the top of parse() - being a step of its own) for pairs of short clashing-name inputs (scheduling lexer injected through lexer=, strict hand-off), random schedules for 2-4 longer programs, the same for overlapping calls of pycparser.parse_file with its default parser (gate inside CLexer.token), and free-running threads (4 parsers + generators, switch interval 1e-6 s); generator / visitor instances of different classes (CGenerator, two subclasses overriding visit_ID / visit_Constant, NodeVisitor subclasses) used in 7 orders in one process vs each alone in its own process; every result compared with the solo run, process-wide interpreter state (recursion limit, switch interval, cwd, environment, locale, warning filters, trace / profile hooks, ...) compared before and after every scheduled run, re-dumped after all parsers have finished (a returned AST must not change afterwards) and checked to share no node object with another parser's result")
     ctx.count(n, nontrivial_n=n)
     ctx.sample({"kind": "schedule", "texts": SHORT[:2], "schedule": [0, 1, 1, 0, 0, 1]})
 
@@ -330,6 +398,22 @@ def replay(ctx, payload):
         return not bad
     if i["kind"] == "threads":
         return not free_running(i["texts"], 20)
+    if i["kind"] == "entry_schedule":
+        import tempfile, shutil
+        tmpd = tempfile.mkdtemp(prefix="c13_entry_")
+        try:
+            paths = []
+            for k, t in enumerate(i["texts"]):
+                pth = os.path.join(tmpd, "e%d.c" % k)
+                with open(pth, "w") as fh:
+                    fh.write(t)
+                paths.append(pth)
+            want = [result_key(entry_parse(pth)) for pth in paths]
+            r = run_schedule(i["texts"], i["schedule"], entry=paths)
+            print(r == want)
+            return r == want
+        finally:
+            shutil.rmtree(tmpd, ignore_errors=True)
     want = [result_key(py_parse_obj(t, "p%d.c" % k)) for k, t in enumerate(i["texts"])]
     r = run_schedule(i["texts"], i["schedule"])
     print(r == want)
